@@ -28,7 +28,8 @@ RULE = ("op sequences over a pool of 3-5 keys x (4 IPv4 + 3 IPv6 + 2 host-name a
         "add_verified_peer / discover_address / discover_services / remove_peer (canonical object or a fresh one) / "
         "remove_by_address / blacklist appends / load_snapshot, interleaved with all get_* queries and snapshot, cache "
         "caps drawn from {1,2,3,500}; random sequences of length 10..200 plus exhaustive enumeration of all sequences "
-        "over a 16-20 op alphabet (depth 3 quick, 4-5 thorough) each followed by two full query sweeps; distinct = "
+        "over a 20 op alphabet to depth 3 (quick) / 4 (thorough) and over a 10 op alphabet to depth 5 (thorough), each "
+        "followed by a sweep of 14 queries and a second sweep of 8 (asking again); a scripted corpus of 12 shapes; distinct = "
         "distinct op-line sequence; non-trivial = contains a query after a removal/address update/service change "
         "that follows an earlier query (the stale-cache shape)")
 TRUSTED_BASE = [
@@ -727,6 +728,13 @@ def scripted():
         ["caps 500 500 500", "svcs p0:- [s1]", "qs s1", f"add p0:0={a}", "qs s1"],
         ["caps 500 1 500", f"disc p0:0={a} {x} s1 0", f"disc p1:0={b} {V4[3]} s1 0", f"disc p0:0={a} {V6[0]} s1 0", "qi p0"],
         ["caps 500 500 500", f"disc p0:0={a} {x} s1 0", "qi p0", "rmp p0:*", f"disc p1:0={b} {x} s1 0", "qi p0", "qi p1"],
+        # a re-added key is a new Peer object: a cached object of the old incarnation must not be returned
+        ["caps 500 500 500", f"add p0:0={a}", f"qa {a} ?", "rmp p0:*", f"add p0:0={b}", f"qa {a} ?", f"qa {b} ?"],
+        ["caps 500 500 500", f"add p0:0={a}", "svcs p0:- [s1]", "qs s1", "rmp p0:*", f"add p0:0={b}", "qs s1", "qw s1 0"],
+        # load_snapshot over an introduced address, eviction of the service and address caches
+        ["caps 1 1 1", f"disc p0:0={a} {x} s1 0", "qi p0", "load " + addr_chunk(x).hex(), "qi p0", "qw - 0"],
+        ["caps 1 1 1", f"add p0:0={a}", f"add p1:0={b}", "svcs p0:- [s1]", "svcs p1:- [s2]", "qs s1", "qs s2", "qs s1",
+         f"qa {a} ?", f"qa {b} ?", f"qa {a} ?"],
     ]
 
 
